@@ -71,9 +71,26 @@ def holes(text):
     return bs, ns
 
 
+def with_omissions():
+    """each skeleton, and each skeleton with ONE of its `wait` statements left out: a binder that shadows a live name makes
+    that name unreachable, so the confusions that a checker could wrongly ACCEPT are the ones with one use fewer"""
+    import re
+    out = []
+    for need, text in SKELETONS:
+        out.append((need, text))
+        for m in re.finditer(r"wait \{n\d\}; ", text):
+            out.append((need, text[:m.start()] + text[m.end():]))
+    seen, res = set(), []
+    for need, text in out:
+        if text not in seen:
+            seen.add(text)
+            res.append((need, text))
+    return res
+
+
 def all_programs():
     k = 0
-    for si, (need, text) in enumerate(SKELETONS):
+    for si, (need, text) in enumerate(with_omissions()):
         bs, ns = holes(text)
         pre = "\n".join(HELPERS[h] for h in need)
         for bv in itertools.product(B, repeat=len(bs)):
